@@ -8,15 +8,15 @@ MANIFEST = dict(
    design="DESIGN.md §5 C07")
 
 MODULES = ["Gozod.Proofs.C07"]
-THEOREMS = ["Gozod.C07.stub"]
-THEOREMS_FULL = [
-    "Gozod.C07.c07_equiv_partial", "Gozod.C07.c07_sound", "Gozod.C07.c07_complete", "Gozod.C07.c07_wellformed",
-    "Gozod.C07.c07_pres",
+THEOREMS = [
+    "Gozod.C07.c07_equiv_partial", "Gozod.C07.c07_pres", "Gozod.C07.c07_sound", "Gozod.C07.c07_complete",
+    "Gozod.C07.c07_wellformed", "Gozod.C07.eqv", "Gozod.C07.pres",
     "Gozod.C07.witness_bytes_vs_codepoints", "Gozod.C07.witness_trim_before_min", "Gozod.C07.witness_optional_null",
-    "Gozod.C07.witness_partial_required", "Gozod.C07.witness_array_single_item", "Gozod.C07.witness_record_enum_exhaustive",
-    "Gozod.C07.witness_union_nil", "Gozod.C07.witness_num_bound_merge", "Gozod.C07.witness_length_overwrites",
-    "Gozod.C07.witness_nested_strip", "Gozod.C07.witness_int_kind_range", "Gozod.C07.witness_array_length_keyword",
-    "Gozod.C07.witness_strict_catchall", "Gozod.C07.witness_size_overwrites", "Gozod.C07.c07_full_false",
+    "Gozod.C07.witness_partial_required", "Gozod.C07.witness_array_single_item", "Gozod.C07.witness_rest_without_min_items",
+    "Gozod.C07.witness_array_length_keyword", "Gozod.C07.witness_record_enum_exhaustive", "Gozod.C07.witness_union_nil",
+    "Gozod.C07.witness_num_bound_merge", "Gozod.C07.witness_length_overwrites", "Gozod.C07.witness_size_overwrites",
+    "Gozod.C07.witness_int_kind_range", "Gozod.C07.witness_strict_catchall", "Gozod.C07.witness_nested_strip",
+    "Gozod.C07.witness_strip_size_after_strip", "Gozod.C07.witness_literal_mixed_kinds", "Gozod.C07.c07_full_false",
 ]
 
 def verdict_ok(impl):
@@ -85,6 +85,6 @@ def run(res):
         "schema-directed embedding: an integral JSON number at an integer-schema position is that Go integer type, otherwise float64; within one union/xor/intersection all numeric leaves have one Go kind",
         "instances: ASCII-only strings and |number| < 2^51 with denominators dividing 4 in the theorems' scope (non-ASCII strings are generated and reported as a finding class)",
         "float MultipleOf on quarter-valued operands is exact (epsilon rule not modelled)",
-        "pending fixes assumed applied: C07-object-size-minproperties, C04-nil-reflect-guards (record nil value)",
+        "models /repo after fix commits 5339542 (minProperties) and 697defa (record nil value)",
     ]
     return res.finish()
